@@ -488,10 +488,10 @@ typedef struct {
     int id, home, rounds, migratable, cbmode, self_req, suspend_round;
     int block_kind; /* how it blocks in its suspend round: 0 ABT_self_suspend, 1 ABT_eventual_wait, 3 ABT_self_resume_suspend_to */
     ABT_thread th, partner, parker;
+    ABT_pool hold; /* where the partner parks: served by no scheduler */
     ABT_eventual ev;
-    volatile int cb_count, done, round, state_hint, cb_ready;
+    volatile int cb_count, done, round, state_hint, cb_ready, last_pool, backs;
 } mover_t;
-static ABT_pool g_hold;
 static volatile int g_partner_stop;
 static void partner_body(void *a)
 {
@@ -506,6 +506,12 @@ static void parker_body(void *a)
     (void)a;
     while (!g_partner_stop)
         CHK(ABT_self_suspend());
+}
+static int pool_size(ABT_pool p)
+{
+    size_t n = 0;
+    CHK(ABT_pool_get_size(p, &n));
+    return (int)n;
 }
 static mover_t MV[MAXM + 1];
 static int g_nm;
@@ -530,11 +536,39 @@ static int last_pool_of_self(void)
     CHK(ABT_self_get_last_pool(&p));
     return pool_index(p);
 }
+/* the word of the unit's migration record that holds the requested target */
+static const void *mig_target_word(ABT_thread th)
+{
+    ABTI_key k;
+    memset(&k, 0, sizeof k);
+    k.id = ABTI_KEY_ID_MIGRATION;
+    ABTI_thread_mig_data *d = (ABTI_thread_mig_data *)ABTI_ktable_get(&ABTI_thread_get_ptr(th)->p_keytable, &k);
+    return d ? (const void *)&d->p_migration_pool : NULL;
+}
+/* the pools (by index) that the main scheduler of stream e serves: configuration knowledge */
+static int sched_has(int e, int *out)
+{
+    int n = 0;
+    if (g_cfg == 4 && e >= 1) {
+        for (int k = 0; k < g_nes - 1; k++)
+            out[n++] = 1 + (e - 1 + k) % (g_nes - 1);
+    } else
+        out[n++] = e;
+    return n;
+}
 static void request(int who, mover_t *m, int how, int tgt)
 {
     /* how: 0 to_pool, 1 to_xstream, 2 to_sched, 3 migrate (any other stream) */
     int r;
-    EV("\"e\":\"MigReq\",\"by\":%d,\"u\":%d,\"tgt\":%d,\"how\":%d", who, m->id, how == 3 ? -1 : tgt, how);
+    char has[64] = "";
+    if (how == 0)
+        snprintf(has, sizeof has, "%d", tgt);
+    else if (how != 3) {
+        int hs[MAXES], n = sched_has(tgt, hs), o = 0;
+        for (int k = 0; k < n; k++)
+            o += snprintf(has + o, sizeof has - (size_t)o, "%s%d", k ? "," : "", hs[k]);
+    }
+    EV("\"e\":\"MigReq\",\"by\":%d,\"u\":%d,\"tgt\":%d,\"how\":%d,\"has\":[%s]", who, m->id, how == 3 ? -1 : tgt, how, has);
     if (how == 0)
         r = ABT_thread_migrate_to_pool(m->th, g_pool[tgt][0]);
     else if (how == 1)
@@ -593,16 +627,19 @@ static void mover_body(void *arg)
             }
             m->state_hint = 0;
             EV("\"e\":\"Resumed\",\"u\":%d", m->id);
-        } else if (m->partner != ABT_THREAD_NULL && rnd(3) == 0) {
+        } else if (m->partner != ABT_THREAD_NULL && rnd(3) == 0 && pool_size(m->hold) == 1) {
             /* the old directed yield: the partner runs next, yields at once and parks again */
-            /* (if the partner is still on its way back to its pool the call returns at once) */
+            /* (the target of a directed yield must be ready and in its pool: after this unit has
+             * moved to another stream the partner may still be running on the old one) */
             EV("\"e\":\"YieldTo\",\"u\":%d", m->id);
             CHK(ABT_thread_yield_to(m->partner));
         } else {
             EV("\"e\":\"Yield\",\"u\":%d", m->id);
             CHK(ABT_thread_yield());
         }
-        EV("\"e\":\"Back\",\"u\":%d,\"pool\":%d", m->id, last_pool_of_self());
+        m->last_pool = last_pool_of_self();
+        EV("\"e\":\"Back\",\"u\":%d,\"pool\":%d", m->id, m->last_pool);
+        m->backs++;
     }
     m->done = 1;
     EV("\"e\":\"Finish\",\"u\":%d", m->id);
@@ -656,8 +693,8 @@ static void mig_serve(int who)
                 cur = m->home;
             }
             int how = rnd(4);
-            if (g_cfg == 4 && how != 0)
-                how = 0; /* shared pools: every stream's scheduler already has the pool */
+            if (g_cfg == 4 && how == 3)
+                how = 0; /* shared pools: every secondary stream's scheduler already has the pool */
             if (how == 3 && g_nes < 3)
                 how = 1; /* ABT_thread_migrate excludes the last stream and the pool's owner */
             int tgt = (cur + 1 + rnd(g_nes - 1)) % g_nes;
@@ -667,19 +704,54 @@ static void mig_serve(int who)
                 how = 0;
                 expect_ok = 0;
             }
+            if (how == 1 || how == 2) {
+                /* a scheduler that already serves the unit's pool (work stealing: as one of its
+                 * other pools) is no target either */
+                int hs[MAXES], n = sched_has(tgt, hs);
+                for (int k = 0; k < n; k++)
+                    if (hs[k] == cur)
+                        expect_ok = 0;
+            }
             issued++;
+            int b0 = m->backs, fin = tgt;
+            int burst = expect_ok && how != 3 && g_nes >= 3 && rnd(3) == 0;
+            int held = burst && abtv_mode() == ABTV_MODE_SERIAL && rnd(2);
+            if (held)
+                /* whoever reads the requested target (the handler) is held back right after
+                 * that, so that the second request lands while the first is being performed */
+                abtv_watch_load_after(mig_target_word(m->th), 1 + rnd(3), 300 + rnd(600), 1000);
             request(who, m, how, tgt);
-            if (expect_ok) {
+            if (held)
+                for (int k = 0; k < 400 && !abtv_watch_hits() && !m->done; k++)
+                    pause_any(who);
+            if (burst) {
+                /* a burst: the next request is issued without waiting for the first one to be
+                 * performed -- whichever of them the handler sees, the unit ends up at the target
+                 * of the last one */
+                fin = tgt;
+                while (fin == tgt || fin == cur)
+                    fin = rnd(g_nes);
+                issued++;
+                request(who, m, g_cfg == 4 ? 0 : rnd(3), fin);
+            }
+            if (expect_ok && how != 3) {
+                /* performed when the unit reports back from the target pool */
+                while (!(m->backs != b0 && m->last_pool == fin) && !m->done) {
+                    try_resume(who, m);
+                    pause_any(who);
+                }
+                if (burst)
+                    abtv_watch_load(NULL, 0, 0);
+                if (m->backs != b0 && m->last_pool == fin)
+                    m->home = fin;
+                else
+                    m->self_req = 3; /* finished first: where it ended is not known to us */
+            } else if (expect_ok) {
                 while (m->cb_count == before && !m->done) {
                     try_resume(who, m);
                     pause_any(who);
                 }
-                if (m->cb_count != before) {
-                    if (how == 3)
-                        m->self_req = 3; /* the runtime chose the target: no further requests from us */
-                    else
-                        m->home = tgt;
-                }
+                m->self_req = 3; /* the runtime chose the target: no further requests from us */
             }
         }
         if (!alive)
@@ -702,13 +774,15 @@ static void scn_migrate(void)
     g_ext_done = 0;
     EV("\"e\":\"Exec\",\"nu\":%d,\"nes\":%d,\"cfg\":%d,\"ext\":%d", g_nm, g_nes, g_cfg, g_have_ext);
     g_partner_stop = 0;
-    CHK(ABT_pool_create_basic(ABT_POOL_FIFO, ABT_POOL_ACCESS_MPMC, ABT_FALSE, &g_hold));
     for (int i = 1; i <= g_nm; i++) {
         mover_t *m = &MV[i];
         m->id = i;
         m->partner = ABT_THREAD_NULL;
-        if (rnd(2))
-            CHK(ABT_thread_create(g_hold, partner_body, NULL, ABT_THREAD_ATTR_NULL, &m->partner));
+        m->hold = ABT_POOL_NULL;
+        if (rnd(2)) {
+            CHK(ABT_pool_create_basic(ABT_POOL_FIFO, ABT_POOL_ACCESS_MPMC, ABT_FALSE, &m->hold));
+            CHK(ABT_thread_create(m->hold, partner_body, NULL, ABT_THREAD_ATTR_NULL, &m->partner));
+        }
         m->parker = ABT_THREAD_NULL;
         m->block_kind = rnd(3) == 0 ? 0 : rnd(2) ? 1 : 3;
         if (m->block_kind == 3)
@@ -764,16 +838,30 @@ static void scn_migrate(void)
             CHK(ABT_thread_free(&MV[i].parker));
         }
     }
+    /* A partner parks in the hold pool after each yield; one that was still running on the
+     * stream its mover has left sees the stop flag and ends on its own; one that has just
+     * yielded may still be on its way back to the pool (its last stream pushes it after the
+     * context switch). */
+    for (;;) {
+        int left = 0;
+        for (int i = 1; i <= g_nm; i++) {
+            if (MV[i].partner == ABT_THREAD_NULL || state_of(MV[i].partner) == 3)
+                continue;
+            left++;
+            ABT_thread t = ABT_THREAD_NULL;
+            CHK(ABT_pool_pop_thread(MV[i].hold, &t));
+            if (t != ABT_THREAD_NULL)
+                CHK(ABT_pool_push_thread(g_pool[0][0], t));
+        }
+        if (!left)
+            break;
+        pause_any(0);
+    }
     for (int i = 1; i <= g_nm; i++)
         if (MV[i].partner != ABT_THREAD_NULL) {
-            ABT_thread t;
-            CHK(ABT_pool_pop_thread(g_hold, &t));
-            CHK(ABT_pool_push_thread(g_pool[0][0], t));
-        }
-    for (int i = 1; i <= g_nm; i++)
-        if (MV[i].partner != ABT_THREAD_NULL)
             CHK(ABT_thread_free(&MV[i].partner));
-    CHK(ABT_pool_free(&g_hold));
+            CHK(ABT_pool_free(&MV[i].hold));
+        }
     sample_blocked("quiet");
 }
 
